@@ -2,10 +2,15 @@
 //! snt-check: property-based checks for surf-n-term (see /verif/DESIGN.md)
 #[macro_use]
 mod engine;
+mod c04;
 mod c07;
 mod c08;
 mod c15;
+mod c18;
+mod c20;
 mod refre;
+mod refsgr;
+mod ttyout;
 
 use engine::{Property, Tier};
 use std::path::Path;
@@ -73,9 +78,12 @@ fn main() {
         });
     }
     let code = match id.as_str() {
+        "C04" => dispatch(c04::C04, &mode),
         "C07" => dispatch(c07::C07, &mode),
         "C08" => dispatch(c08::C08, &mode),
         "C15" => dispatch(c15::C15, &mode),
+        "C18" => dispatch(c18::C18, &mode),
+        "C20" => dispatch(c20::C20, &mode),
         _ => {
             eprintln!("unknown property id {id:?}");
             2
